@@ -37,13 +37,16 @@ def supplied_coords(draw, spec, box, mode=None, nres=None, skip=()):
     if nres is None:
         nres = draw(st.sampled_from([total, total, draw(st.integers(1, total))]))
     mode = mode or draw(st.sampled_from(["c", "c", "mc"]))
+    # lattice sites of the supplied residues: 0.9 nm apart, at least 0.7 nm (and a residue's extent) away from the
+    # faces of the box along every axis; a box too small for nres sites takes fewer supplied residues
+    nax = [max(1, int((b - 1.0) // 0.9)) for b in box]
+    nres = max(1, min(nres, nax[0] * nax[1] * nax[2]))
     chosen = set(stream[:nres])
     out = []
-    per_axis = max(1, int((min(box) - 1.0) // 0.9))
     k = 0
     centres = {}
     for key in stream[:nres]:
-        ix, iy, iz = k % per_axis, (k // per_axis) % per_axis, k // (per_axis * per_axis)
+        ix, iy, iz = k % nax[0], (k // nax[0]) % nax[1], k // (nax[0] * nax[1])
         centres[key] = (0.7 + 0.9 * ix, 0.7 + 0.9 * iy, 0.7 + 0.9 * iz)
         k += 1
     if mode != "mc" and draw(st.integers(0, 3)) == 0:
@@ -252,6 +255,8 @@ def check(spec, ctx):
     if res.exc is not None:
         if isinstance(res.exc, (IOError, OSError)):
             raise Reject(str(res.exc)[:200])
+        if gc.refused_outside_box(res.exc, spec):
+            raise Reject("start structure with coordinates beyond its box")
         raise crash("gen_coords:crash", res.exc)
     check_gro_listing(spec, res)
     want_box, source = expected_box(spec)
